@@ -199,6 +199,45 @@ func c12OrderAxioms(r *core.Result) {
 	}
 }
 
+// c12DeepSeq builds m, m/m, ..., (depth D) and then a few returns.
+func c12DeepSeq(R *core.Rand) []c12sym {
+	names := []string{"a", "m", "z", "m-", "m0"}
+	D := R.Range(1, 40)
+	if R.P(1, 3) {
+		D = core.Pick(R, []int{3, 4, 5, 7, 8, 9, 15, 16, 17, 31, 32, 33, 35})
+	}
+	var chain []string
+	var seq []c12sym
+	for i := 0; i < D; i++ {
+		chain = append(chain, core.Pick(R, names))
+		seq = append(seq, c12sym{strings.Join(chain, "/"), kDir})
+	}
+	// optionally a child at the deepest level
+	if R.P(1, 2) {
+		seq = append(seq, c12sym{strings.Join(chain, "/") + "/" + core.Pick(R, names), R.Intn(3)})
+	}
+	n := R.Range(1, 4)
+	level := D
+	for i := 0; i < n && level > 0; i++ {
+		level = R.Intn(level + 1)
+		if level == 0 {
+			break
+		}
+		// an entry in the directory chain[:level-1], compared with chain[level-1]
+		nm := core.Pick(R, names)
+		if R.P(1, 3) {
+			nm = chain[level-1]
+		}
+		p := strings.Join(append(append([]string{}, chain[:level-1]...), nm), "/")
+		k := R.Intn(3)
+		seq = append(seq, c12sym{p, k})
+		if k == kDir && R.P(1, 2) {
+			seq = append(seq, c12sym{p + "/" + core.Pick(R, names), R.Intn(3)})
+		}
+	}
+	return seq
+}
+
 func init() {
 	syms := c12Syms()
 	nEnum := len(syms) * len(syms) // one case per pair of leading symbols
@@ -248,6 +287,15 @@ func init() {
 				nseq := 2000
 				var sample []string
 				for s := 0; s < nseq; s++ {
+					if s%4 == 3 {
+						// deep chains: a nested chain of directories of depth 1..40,
+						// then returns to shallower levels with names below, equal
+						// to and above the directory that was left
+						seq := c12DeepSeq(c.R)
+						c12Check(r, seq)
+						r.Count("deep_chain_sequences", 1)
+						continue
+					}
 					l := c.R.Range(3, 60)
 					var seq []c12sym
 					for i := 0; i < l; i++ {
